@@ -91,4 +91,72 @@ func (or *ObjectRegistry) applyConfig(config map[string]string)
     invariant[2] domOf(or.entities) == eDom && valsOf(or.entities) == eVal && watchersWF(or) && event != nil && event.Delete != nil && event.Create != nil && event.Update != nil && fresh(event.Delete) && fresh(event.Create) && fresh(event.Update) && watcher != nil && watcher.entities != nil && watcher.entities != or.entities && watcher.filter != nil
     invariant[3] domOf(or.entities) == eDom && valsOf(or.entities) == eVal && watchersWF(or) && event != nil && event.Delete != nil && event.Create != nil && event.Update != nil && fresh(event.Delete) && fresh(event.Create) && fresh(event.Update) && watcher != nil && watcher.entities != nil && watcher.entities != or.entities && watcher.filter != nil
   end
+// ---- C20: reconciling one watcher event: the live set follows the event; init / inherit / close exactly once ----
+ghost var inits mmap[int]int      // entity -> number of Init calls
+ghost var inherits mmap[int]int   // entity -> number of Inherit calls
+ghost var closes mmap[int]int     // entity -> number of Close calls
+ghost var inhPrev mmap[int]int    // entity -> the predecessor it inherited from
+
+// the *WithRecovery wrappers call the object's Init / Inherit / Close once and recover() a panic of it
+func (e *ObjectEntity) InitWithRecovery(muxMapper context.MuxMapper)
+  trusted
+  requires e != nil
+  modifies inits
+  ensures inits == old(store(inits, ref(e), inits[ref(e)] + 1))
+
+func (e *ObjectEntity) InheritWithRecovery(previousEntity *ObjectEntity, muxMapper context.MuxMapper)
+  trusted
+  requires e != nil && previousEntity != nil
+  modifies inherits, inhPrev
+  ensures inherits == old(store(inherits, ref(e), inherits[ref(e)] + 1)) && inhPrev == old(store(inhPrev, ref(e), ref(previousEntity)))
+
+func (e *ObjectEntity) CloseWithRecovery()
+  trusted
+  requires e != nil
+  modifies closes
+  ensures closes == old(store(closes, ref(e), closes[ref(e)] + 1))
+
+axiom string-keys-compare-by-value: forall a, b string :: boxed("string", a) == boxed("string", b) ==> a == b
+
+pred lv(s *Supervisor, n string) := smHas[addr(s.businessControllers)][typeTag("string")][boxed("string", n)]
+pred lvVal(s *Supervisor, n string) := smVal[addr(s.businessControllers)][typeTag("string")][boxed("string", n)]
+pred lvTyp(s *Supervisor, n string) := smTyp[addr(s.businessControllers)][typeTag("string")][boxed("string", n)]
+// registry invariant: every live value is a non-nil *ObjectEntity and different names hold different entities
+pred regOK(s *Supervisor) := (forall n string :: lv(s, n) ==> lvTyp(s, n) == typeTag("*ObjectEntity") && lvVal(s, n) != 0) && (forall n1, n2 string :: lv(s, n1) && lv(s, n2) && n1 != n2 ==> lvVal(s, n1) != lvVal(s, n2))
+// the entities of an event are new objects: non-nil, pairwise different, and none of them is live
+pred eventOK(s *Supervisor, ev *ObjectEntityWatcherEvent) := (forall n string :: (n in ev.Create) ==> ev.Create[n] != nil) && (forall n string :: (n in ev.Update) ==> ev.Update[n] != nil) && (forall n1, n2 string :: (n1 in ev.Create) && (n2 in ev.Create) && n1 != n2 ==> ev.Create[n1] != ev.Create[n2]) && (forall n1, n2 string :: (n1 in ev.Update) && (n2 in ev.Update) && n1 != n2 ==> ev.Update[n1] != ev.Update[n2]) && (forall n1, n2 string :: (n1 in ev.Create) && (n2 in ev.Update) ==> ev.Create[n1] != ev.Update[n2]) && (forall n1, n2 string :: (n1 in ev.Create) && lv(s, n2) ==> ref(ev.Create[n1]) != lvVal(s, n2)) && (forall n1, n2 string :: (n1 in ev.Update) && lv(s, n2) ==> ref(ev.Update[n1]) != lvVal(s, n2))
+
+func (s *Supervisor) handleEvent(event *ObjectEntityWatcherEvent)
+  flag frame=unchecked
+  requires s != nil && event != nil
+  requires regOK(s) && eventOK(s, event)
+  ensures registry-invariant-kept: forall n string :: lv(s, n) ==> lvTyp(s, n) == typeTag("*ObjectEntity") && lvVal(s, n) != 0
+  ensures live-set-follows-the-event: forall n string :: lv(s, n) <==> ((old(lv(s, n)) && !(n in event.Delete)) || (n in event.Create))
+  ensures deleted-objects-are-closed-exactly-once: forall n string :: old(lv(s, n)) && (n in event.Delete) ==> closes[old(lvVal(s, n))] == old(closes[lvVal(s, n)]) + 1
+  ensures nothing-else-is-closed: forall x int :: (forall n string :: !(old(lv(s, n)) && (n in event.Delete) && old(lvVal(s, n)) == x)) ==> closes[x] == old(closes[x])
+  ensures created-objects-are-initialised-exactly-once-and-live: forall n string :: (n in event.Create) && !(old(lv(s, n)) && !(n in event.Delete)) ==> inits[ref(event.Create[n])] == old(inits[ref(event.Create[n])]) + 1 && (!(n in event.Update) ==> lvVal(s, n) == ref(event.Create[n]))
+  ensures nothing-else-is-initialised: forall x int :: (forall n string :: !((n in event.Create) && !(old(lv(s, n)) && !(n in event.Delete)) && ref(event.Create[n]) == x)) ==> inits[x] == old(inits[x])
+  ensures updated-objects-inherit-exactly-once-from-the-previous-live-generation: forall n string :: (n in event.Update) && lv(s, n) ==> inherits[ref(event.Update[n])] == old(inherits[ref(event.Update[n])]) + 1 && lvVal(s, n) == ref(event.Update[n]) && inhPrev[ref(event.Update[n])] == (((n in event.Create) && !(old(lv(s, n)) && !(n in event.Delete))) ? ref(event.Create[n]) : old(lvVal(s, n)))
+  ensures nothing-else-inherits: forall x int :: (forall n string :: !((n in event.Update) && lv(s, n) && ref(event.Update[n]) == x)) ==> inherits[x] == old(inherits[x])
+  // loop 1: deletes (any iteration order)
+  invariant[1] reg: (forall n string :: lv(s, n) ==> lvTyp(s, n) == typeTag("*ObjectEntity") && lvVal(s, n) != 0) && smVal == old(smVal) && smTyp == old(smTyp) && inits == old(inits) && inherits == old(inherits) && inhPrev == old(inhPrev)
+  invariant[1] live: forall n string :: lv(s, n) <==> (old(lv(s, n)) && !(exists k int :: 0 <= k && k < idx$1 && keys$1[k] == n))
+  invariant[1] closed: forall k int :: 0 <= k && k < idx$1 && old(lv(s, keys$1[k])) ==> closes[old(lvVal(s, keys$1[k]))] == old(closes[lvVal(s, keys$1[k])]) + 1
+  invariant[1] others: forall x int :: (forall k int :: 0 <= k && k < idx$1 ==> !(old(lv(s, keys$1[k])) && old(lvVal(s, keys$1[k])) == x)) ==> closes[x] == old(closes[x])
+  // loop 2: creates
+  invariant[2] reg: (forall n string :: lv(s, n) ==> lvTyp(s, n) == typeTag("*ObjectEntity") && lvVal(s, n) != 0) && inherits == old(inherits) && inhPrev == old(inhPrev)
+  invariant[2] closes-final: (forall n string :: old(lv(s, n)) && (n in event.Delete) ==> closes[old(lvVal(s, n))] == old(closes[lvVal(s, n)]) + 1) && (forall x int :: (forall n string :: !(old(lv(s, n)) && (n in event.Delete) && old(lvVal(s, n)) == x)) ==> closes[x] == old(closes[x]))
+  invariant[2] live: forall n string :: lv(s, n) <==> ((old(lv(s, n)) && !(n in event.Delete)) || (exists k int :: 0 <= k && k < idx$2 && keys$2[k] == n))
+  invariant[2] value: forall n string :: lv(s, n) ==> lvVal(s, n) == (((exists k int :: 0 <= k && k < idx$2 && keys$2[k] == n) && !(old(lv(s, n)) && !(n in event.Delete))) ? ref(event.Create[n]) : old(lvVal(s, n)))
+  invariant[2] inited: forall k int :: 0 <= k && k < idx$2 && !(old(lv(s, keys$2[k])) && !(keys$2[k] in event.Delete)) ==> inits[ref(event.Create[keys$2[k]])] == old(inits[ref(event.Create[keys$2[k]])]) + 1
+  invariant[2] others: forall x int :: (forall k int :: 0 <= k && k < idx$2 ==> !(!(old(lv(s, keys$2[k])) && !(keys$2[k] in event.Delete)) && ref(event.Create[keys$2[k]]) == x)) ==> inits[x] == old(inits[x])
+  // loop 3: updates
+  invariant[3] reg: forall n string :: lv(s, n) ==> lvTyp(s, n) == typeTag("*ObjectEntity") && lvVal(s, n) != 0
+  invariant[3] closes-final: (forall n string :: old(lv(s, n)) && (n in event.Delete) ==> closes[old(lvVal(s, n))] == old(closes[lvVal(s, n)]) + 1) && (forall x int :: (forall n string :: !(old(lv(s, n)) && (n in event.Delete) && old(lvVal(s, n)) == x)) ==> closes[x] == old(closes[x]))
+  invariant[3] inits-final: (forall n string :: (n in event.Create) && !(old(lv(s, n)) && !(n in event.Delete)) ==> inits[ref(event.Create[n])] == old(inits[ref(event.Create[n])]) + 1) && (forall x int :: (forall n string :: !((n in event.Create) && !(old(lv(s, n)) && !(n in event.Delete)) && ref(event.Create[n]) == x)) ==> inits[x] == old(inits[x]))
+  invariant[3] live: forall n string :: lv(s, n) <==> ((old(lv(s, n)) && !(n in event.Delete)) || (n in event.Create))
+  invariant[3] value: forall n string :: lv(s, n) ==> lvVal(s, n) == ((exists k int :: 0 <= k && k < idx$3 && keys$3[k] == n) ? ref(event.Update[n]) : (((n in event.Create) && !(old(lv(s, n)) && !(n in event.Delete))) ? ref(event.Create[n]) : old(lvVal(s, n))))
+  invariant[3] inherited: forall k int :: 0 <= k && k < idx$3 && lv(s, keys$3[k]) ==> inherits[ref(event.Update[keys$3[k]])] == old(inherits[ref(event.Update[keys$3[k]])]) + 1 && inhPrev[ref(event.Update[keys$3[k]])] == (((keys$3[k] in event.Create) && !(old(lv(s, keys$3[k])) && !(keys$3[k] in event.Delete))) ? ref(event.Create[keys$3[k]]) : old(lvVal(s, keys$3[k])))
+  invariant[3] others: forall x int :: (forall k int :: 0 <= k && k < idx$3 ==> !(lv(s, keys$3[k]) && ref(event.Update[keys$3[k]]) == x)) ==> inherits[x] == old(inherits[x])
+  ensures untouched-names-keep-their-object: forall n string :: lv(s, n) && !(n in event.Update) && !((n in event.Create) && !(old(lv(s, n)) && !(n in event.Delete))) ==> lvVal(s, n) == old(lvVal(s, n))
 @*/
